@@ -76,3 +76,37 @@ Definition sa_validate (num_reads : Z) (beta_range : option (list Qc)) (num_swee
        | Some l => if existsb (fun b : Qc => Qc_leb b 0) l then false
                    else if negb (length l =? 2)%nat then false else true
        end && negb (num_sweeps <=? 0)%Z.
+
+(* the same tests with the TYPE tests in front of them (TypeError), on arguments of any Python type:
+   an int, or something that is not an int (float, str, numpy integer, None);
+   beta_range: None, a tuple/list of items that are numbers (int / float) or not, or another object *)
+Inductive iarg := AInt (z : Z) | ANotInt.
+Inductive bitem := BNum (q : Qc) | BNotNum.
+Inductive barg := BDefault | BSeq (items : list bitem) | BNotSeq.
+Inductive outcome := Accept | RaiseValueError | RaiseTypeError.
+
+Definition bitem_is_num (b : bitem) : bool := match b with BNum _ => true | BNotNum => false end.
+Definition bitem_nonpos (b : bitem) : bool := match b with BNum q => Qc_leb q 0 | BNotNum => false end.
+
+(* SimulatedAnnealingSampler.sample, then ising_simulated_annealing for the first read, in source order *)
+Definition sa_outcome (num_reads : iarg) (beta_range : barg) (num_sweeps : iarg) : outcome :=
+  match num_reads with
+  | ANotInt => RaiseTypeError                                  (* not isinstance(num_reads, int) *)
+  | AInt r =>
+      if (r <? 1)%Z then RaiseValueError
+      else
+        let after_beta :=
+          match num_sweeps with
+          | ANotInt => RaiseTypeError                            (* not isinstance(num_sweeps, int) *)
+          | AInt s => if (s <=? 0)%Z then RaiseValueError else Accept
+          end in
+        match beta_range with
+        | BDefault => after_beta
+        | BNotSeq => RaiseTypeError                              (* not a tuple / list *)
+        | BSeq items =>
+            if negb (forallb bitem_is_num items) then RaiseTypeError
+            else if existsb bitem_nonpos items then RaiseValueError
+            else if negb (length items =? 2)%nat then RaiseValueError
+            else after_beta
+        end
+  end.
